@@ -36,6 +36,14 @@ impl FlexiLogger {
         }
     }
 
+    fn spec_max_level(&self) -> log::LevelFilter {
+        self.log_specification
+            .read()
+            .map_err(|e| eprint_err(ErrorCode::Poison, "rwlock on log spec is poisoned", &e))
+            .unwrap()
+            .max_level()
+    }
+
     fn primary_enabled(&self, level: log::Level, module: &str) -> bool {
         self.log_specification
             .read()
@@ -57,15 +65,22 @@ impl log::Log for FlexiLogger {
         let target = metadata.target();
         let level = metadata.level();
 
-        if !self.other_writers.is_empty() && target.starts_with('{') {
-            // at least one other writer is configured _and_ addressed
+        if target.starts_with('{') {
             let targets: Vec<&str> = target
                 .get(1..(target.len() - 1))
                 .unwrap_or_default()
                 .split(',')
                 .collect();
             for t in targets {
-                if t != "_Default" {
+                if t == "_Default" {
+                    // the record goes to the default channel if the log specification enables
+                    // its module path, which is not known here: do not answer false for a record
+                    // that could be written
+                    if level <= self.spec_max_level() {
+                        return true;
+                    }
+                } else if !self.other_writers.is_empty() {
+                    // at least one other writer is configured _and_ addressed
                     match self.other_writers.get(t) {
                         None => {
                             eprint_msg(ErrorCode::WriterSpec, &format!("bad writer spec: {t}"));
